@@ -108,7 +108,10 @@ CLAIMED = {
              "random include/exclude lists with literals, *, ?, **, classes, trailing /* /** /*/**, negations, and map functions that rewrite, "
              "exclude or skip) are recorded and compared by TLC with the naive unpruned reference of spec/FilterRef.tla built from single-pattern "
              "hit matrices of moby/patternmatcher; a second reference built from the library's incremental matcher is the explanation test "
-             "that separates the known finding (incremental matcher != naive verdict) from any other divergence.",
+             "that separates the known finding (incremental matcher != naive verdict) from any other divergence. spec/FilterWalkMC.tla transcribes "
+             "filterFS.Walk (incremental matcher with its skip rule, both pruning shortcuts, parentDirs stack, lazy ancestors) with a TLA+ "
+             "semantics of the pattern sub-language and TLC proves on every pattern list of the bounded universe that pruning is unobservable and "
+             "that only the matcher can make the walk diverge; the pinned double-strip variant must be rejected.",
         design_ref="DESIGN.md section 6 C10",
         note="Trusted: TLC; moby/patternmatcher for single-pattern glob semantics; bounded pattern sub-language and seeded random cases.",
         technique="TLA+ reference filter (FilterRef) + TLC trace validation of real filtered walks with a library-derived hit matrix"),
